@@ -1,5 +1,6 @@
 """C03 — rate limiters never grant more than the configured quota."""
 import subprocess
+import threading
 import time
 
 import vlib
@@ -16,7 +17,14 @@ RULE = ("TLC explores the abstract period limiter (PeriodLimit.tla: per-key coun
         "argument, error-reply and closed-server outages); seeded long random histories ((period, quota) in [1,6]^2, "
         "(rate, burst) in [1,8]^2 and beyond including burst < rate/2) and rounds of simultaneous calls from 2..8 "
         "goroutines (callStart/callEnd, TLC finds the linearisation; store up, down, going down mid-round, callers "
-        "one second apart) are added; every recorded trace is validated by TLC. distinct = distinct operation "
+        "one second apart) are added; Align() limiters built at another second of the aligned period than the one "
+        "they are used in (every Take bracketed by two reads of the local wall-clock second, from which the "
+        "specification computes the aligned window; store clock virtual, and in the thorough tier following real "
+        "time over 3-4 periods) and outages that last 0..4 s of REAL time, after which the driver's own client proves "
+        "the store reachable and logs how long an instance lingers in fallback mode (the specification accepts less "
+        "than RecoverBound = 10 s); TokenMonitor.tla (real-time model of startMonitor/waitForRedis, outages of every "
+        "length) and PeriodImpl.tla with Align() are model-checked against the abstract limiters; every recorded "
+        "trace is validated by TLC. distinct = distinct operation "
         "histories executed (generated ones by content; random and concurrent ones by seed and index).")
 
 FAM = "limit"
@@ -36,15 +44,74 @@ def check(run):
         "that call's context; the client's circuit breaker is kept closed after an outage by moving go-zero's "
         "relative clock (timex.VerifNow) past its window, so a reachable store is never hidden by the breaker",
         "recovery of an instance is logged only when the driver saw redisAlive = 1 and the monitor gone with no call "
-        "in flight; how long the monitor takes is not part of any verdict",
+        "in flight",
+        "REAL TIME (the monitor's 100 ms ticker cannot be virtualised without a hook): a goroutine with a 100 ms "
+        "ticker gets to run and have one PING answered at least once while the driver's own client, in the same "
+        "process, has had its PINGs answered for 10 s without a gap (only intervals of at most 150 ms between two "
+        "successful probes are counted, so a stalled process earns nothing) and the client's breaker is kept closed; "
+        "an instance found in fallback mode after that is reported as a violation (TokenBucket.tla RecoverBound)",
+        "Align(): the limiter reads time.Now() (no hook); the local wall-clock second it saw lies between the two "
+        "reads the driver makes just before and after the call (same zone offset, the wall clock is not stepped "
+        "backwards during a call); the store's clock is FastForward "
+        "(in the 'wall' traces: FastForward by the real time elapsed)",
         "local (fallback) answers are only held to the statement's bound burst + rate x elapsed per outage; "
         "denying locally is always accepted",
     ]
-    w = 8 if thorough else 4
+    # The design-level model checking and the conformance part are independent: they run side by side (one
+    # thread each; 3 + 1 TLC workers in quick, 5 + 1 in thorough).
+    run._spec_copy(FAM)
+    lock = threading.Lock()
+    tmp0 = run.tmp
+
+    def tmp(name):
+        with lock:
+            return tmp0(name)
+    run.tmp = tmp
+    failure = []
+
+    def design():
+        try:
+            design_level(run, thorough)
+        except BaseException as ex:  # noqa
+            failure.append(ex)
+    th = threading.Thread(target=design)
+    th.start()
+    try:
+        conformance(run, thorough)
+    finally:
+        th.join()
+    if failure:
+        raise failure[0]
+
+
+def drive(run, *a, **kw):
+    """go_driver; a run the drivers themselves discarded because a store command stalled for more than 2 s
+    (machine too busy: go-redis would re-send the command) is repeated, at most twice."""
+    for attempt in range(3):
+        try:
+            return run.go_driver(*a, **kw)
+        except vlib.Infra as ex:
+            if "machine too busy" not in str(ex) or attempt == 2:
+                raise
+            vlib.log("  NOTE driver run discarded (a store command stalled > 2 s on a busy machine); running it again")
+            run.notes.append("a driver run was discarded (stalled store command) and repeated")
+
+
+def design_level(run, thorough):
+    w = 5 if thorough else 3
     # ---- design level
     run.model_check(FAM, "PeriodLimitMC", "PeriodLimitMC.cfg", workers=w,
-                    note="abstract period limiter, 2 keys, (period,quota) in {(3,2),(2,1),(1,3)}, Align on/off, <= 7 ops, "
-                         "failed Takes may have been counted: ExactlyQuota, PCanonical")
+                    note="abstract period limiter, 2 keys, (period,quota) in {(3,2),(2,1),(1,3)}, Align on/off with the wall "
+                         "clock 0 / 0.4 / 1 / 2.6 s ahead of the store's, <= 7 ops, failed Takes may have been counted: "
+                         "ExactlyQuota, PCanonical, AlignedEnd, AlignedQuota")
+    run.model_check(FAM, "TokenMonitor", "TokenMonitorMC.cfg", workers=1,
+                    note="real-time model of startMonitor / waitForRedis (one probe per 100 ms unit, at most 5 units "
+                         "missed), outages of every length: Conforms (StoreFail / Linger / Recover of TokenBucket), "
+                         "BackInTime (fallback mode ends within RecoverBound of the store being reachable), NeverStuck")
+    run.model_check(FAM, "PeriodImpl", "PeriodImplAlign.cfg", workers=w,
+                    note="Align(): window argument computed from the wall clock at every Take, then the atomic script; "
+                         "2 goroutines, 3 Takes, (period,quota) in {(3,1),(2,2)}, wall clock 0 / 1.4 s ahead, 2 clock "
+                         "steps of 0.4 s / 1 s / period between any two steps, checked step by step against PeriodLimit")
     run.model_check(FAM, "TokenBucketMC", "TokenBucketMC.cfg", workers=w,
                     note="abstract token limiter, 2 instances, (rate,burst) in {(2,1),(2,3),(5,2)}, <= 6 ops: "
                          "JointBound, LocalBound, FallbackNeedsOutage")
@@ -62,7 +129,11 @@ def check(run):
         bugs += [("TokenImpl", "TokenImplBugNil.cfg", "a refused request (nil reply) treated as a store error"),
                  ("TokenImpl", "TokenImplBugMon.cfg", "startMonitor clears redisAlive before looking at monitorStarted: "
                   "meeting a leaving monitor the instance is stuck in fallback mode (NeverStuck)"),
-                 ("PeriodImpl", "PeriodImplBug.cfg", "INCRBY and EXPIRE as two commands")]
+                 ("PeriodImpl", "PeriodImplBug.cfg", "INCRBY and EXPIRE as two commands"),
+                 ("PeriodImpl", "PeriodImplBugFreeze.cfg", "Align(): the window argument computed once, when the limiter "
+                  "object is built (cached script arguments): later periods are cut at the wrong second"),
+                 ("TokenMonitor", "TokenMonitorBugCtx.cfg", "all probes of a monitor share one deadline 1 s after its "
+                  "start: after an outage longer than that the instance never leaves fallback mode (BackInTime)")]
     for module, cfg, what in bugs:
         run.model_check(FAM, module, cfg, workers=2, expect="violation", note="documented counterexample: " + what)
     run.model_check(FAM, "PeriodImpl", "PeriodImplMC.cfg", workers=w,
@@ -71,6 +142,8 @@ def check(run):
     if thorough:
         run.model_check(FAM, "PeriodLimitMC", "PeriodLimitMCx.cfg", workers=w,
                         note="abstract period limiter, 5 (period,quota) incl. quota 0, <= 9 ops, exact accounting")
+        run.model_check(FAM, "PeriodImpl", "PeriodImplAlignX.cfg", workers=w,
+                        note="as PeriodImplAlign.cfg with 4 Takes, 3 clock steps, wall clock 0 / 1.4 / 2.6 s ahead")
         run.model_check(FAM, "TokenBucketMC", "TokenBucketMC7.cfg", workers=w, note="as TokenBucketMC.cfg, <= 7 ops")
         run.model_check(FAM, "TokenBucketMC", "TokenBucketMCx.cfg", workers=w,
                         note="abstract token limiter, (rate,burst) in {(1,1),(3,1),(1,2),(3,4),(7,3)}, <= 6 ops")
@@ -80,6 +153,9 @@ def check(run):
                         note="4 calls, (rate,burst) = (5,2)")
     if thorough:
         apalache(run)
+
+
+def conformance(run, thorough):
     # ---- spec -> code
     gens = [("PeriodLimitMC", "PeriodLimitGenX.cfg" if thorough else "PeriodLimitGen.cfg", "TestVerifPeriodReplay$",
              "PeriodLimitTrace", "period-replay",
@@ -95,23 +171,27 @@ def check(run):
         for b in beh:
             run.distinct.add((label, str(b)))
         run.evaluations += len(beh)
-        tr = run.go_driver(PKG, DRV, test, inp=beh, env=env, timeout=900)
+        tr = drive(run, PKG, DRV, test, inp=beh, env=env, timeout=900)
         run.validate(FAM, tmod, tmod + ".cfg", tr, label=label, heap="3g", dfs=True)
     # ---- code -> spec
     if thorough:
-        drivers = [("TestVerifPeriodRandom$", "PeriodLimitTrace", "period-random", None),
+        drivers = [("TestVerifPeriodAligned$", "PeriodLimitTrace", "period-aligned", None),
+                   ("TestVerifTokenOutage$", "TokenBucketTrace", "token-outage", None),
+                   ("TestVerifPeriodRandom$", "PeriodLimitTrace", "period-random", None),
                    ("TestVerifPeriodConcurrent$", "PeriodLimitTrace", "period-concurrent", "2,8"),
                    ("TestVerifTokenRandom$", "TokenBucketTrace", "token-random", None),
                    ("TestVerifTokenConcurrent$", "TokenBucketTrace", "token-concurrent", "2,8")]
     else:
-        drivers = [("TestVerifPeriod(Random|Concurrent)$", "PeriodLimitTrace", "period-random+concurrent", "4"),
-                   ("TestVerifToken(Random|Concurrent)$", "TokenBucketTrace", "token-random+concurrent", "4")]
+        drivers = [("TestVerifPeriod(Aligned|Random|Concurrent)$", "PeriodLimitTrace",
+                    "period-aligned+random+concurrent", "4"),
+                   ("TestVerifToken(Outage|Random|Concurrent)$", "TokenBucketTrace",
+                    "token-outage+random+concurrent", "4")]
     # while the ts-regress defect is recorded as an OPEN known finding every trace that shows it is re-validated
     # several times (with and without the deviation): keep the number of such traces small
     kf_open = any(f.get("status") == "open" and f.get("deviation") == "KF_TokenTsRegress" for f in run.findings)
     env = {"VERIF_TOKEN_SKEW_EVERY": (12 if not thorough else 40) if kf_open else 1}
     for test, tmod, label, cpu in drivers:
-        tr = run.go_driver(PKG, DRV, test, cpu=cpu, timeout=900, env=env)
+        tr = drive(run, PKG, DRV, test, cpu=cpu, timeout=900, env=env)
         n0 = run.traces
         run.validate(FAM, tmod, tmod + ".cfg", tr, label=label, heap="3g", dfs=True)
         run.evaluations += run.traces - n0
@@ -151,10 +231,11 @@ LEVEL_TEXT = ("Exhaustive TLC model checking (length-bounded) of the abstract pe
               "TLC-reachable (state, operation) replayed on the real limiters over miniredis, long random histories "
               "and concurrent rounds, each trace validated by TLC against PeriodLimit.tla / TokenBucket.tla.")
 LEVEL_NOTE = ("Trusted: TLC/SANY, the Go toolchain, miniredis (script atomicity, ttl by FastForward, SETEX 0 rejected), "
-              "the go-redis hook that classifies a call's path, the emitter's ordering. Not covered: real Redis and "
-              "cluster mode, Align() beyond 'the first period lasts 1..period seconds', callers whose clock runs "
-              "backwards or is more than a second away from the store's, how long the monitor needs to notice a "
-              "recovered store (only that it does), rates for which time.Second/rate is 0.")
+              "the go-redis hook that classifies a call's path, the emitter's ordering, and for the one real-time "
+              "verdict (an instance still in fallback mode after the driver's own client has seen the store answer "
+              "for 10 s) that the Go scheduler runs a 100 ms ticker goroutine within that time. Not covered: real "
+              "Redis and cluster mode, a zone offset that changes during a run (Align()), callers whose clock runs "
+              "backwards or is more than a second away from the store's, rates for which time.Second/rate is 0.")
 TECHNIQUE = ("TLA+ specs (PeriodLimit, TokenBucket / TokenImpl, PeriodImpl), TLC model checking, TLC-generated "
              "(state, operation) cover replay + TLC trace validation with inferred linearisation points")
 DESIGN_REF = "DESIGN.md Part B C03"
